@@ -94,18 +94,33 @@ func (h *hashRanges) removeElement(elHash uint64) {
 		rng = h.getBottomRange(rng, elHash)
 		rng.elements--
 	}
-	parent := rng.parent
-	if parent.elements <= h.compareThreshold && parent != h.topRange {
-		ranges := genTupleRanges(parent.from, parent.to, h.divideFactor)
-		for _, tuple := range ranges {
-			child := h.ranges[tuple]
-			delete(h.ranges, tuple)
-			delete(h.dirty, child)
+	// merge the highest divided range (except the top one) that fits the threshold again
+	var merge *hashRange
+	for parent := rng.parent; parent != nil && parent != h.topRange; parent = parent.parent {
+		if parent.elements <= h.compareThreshold {
+			merge = parent
 		}
-		parent.isDivided = false
-		h.dirty[parent] = struct{}{}
+	}
+	if merge != nil {
+		h.removeBottomRanges(merge)
+		merge.isDivided = false
+		h.dirty[merge] = struct{}{}
 	} else {
 		h.dirty[rng] = struct{}{}
+	}
+}
+
+func (h *hashRanges) removeBottomRanges(rng *hashRange) {
+	for _, tuple := range genTupleRanges(rng.from, rng.to, h.divideFactor) {
+		child := h.ranges[tuple]
+		if child == nil {
+			continue
+		}
+		if child.isDivided {
+			h.removeBottomRanges(child)
+		}
+		delete(h.ranges, tuple)
+		delete(h.dirty, child)
 	}
 }
 
